@@ -86,13 +86,13 @@ Proof.
     split; auto. split; auto. split; auto. simpl; auto.
   - (* SAssign *)
     inversion Hchk as [[Hce HG]]; clear Hchk. apply app_nil_inv in Hce. destruct Hce as [Hce Hva].
+    destruct (eval_lv st r t) as [[lp via]|] eqn:Hlv; [|discriminate].
+    pose proof (assign_fresh _ _ _ _ _ _ _ Hen Hst (co_cells _ _ _ _ _ Hk) Hok Hva Hlv) as Hfr.
     destruct (eval f P r (depth c) e st) as [[v st1]|] eqn:Ha; [|discriminate].
     destruct (HE _ _ _ _ _ _ _ Hv Hk Hce Ha) as [S1 [C1 V1]].
     pose proof (ctxok_step _ _ _ _ _ _ Hk S1 C1) as Hk1.
     pose proof (env_ok_mono _ _ _ _ _ _ (st_ty _ _ _ S1) Hok) as Hok1.
-    destruct (eval_lv st1 r t) as [[lp via]|] eqn:Hlv; [|discriminate].
     destruct (write st1 lp v) as [st2|] eqn:Hw; [|discriminate]. inversion Hev; subst; clear Hev.
-    pose proof (assign_fresh _ _ _ _ _ _ _ Hen Hst C1 Hok1 Hva Hlv) as Hfr.
     destruct (write_ok P n0 _ _ _ _ C1 Hw V1 Hfr) as [S2 C2].
     pose proof (ctxok_step _ _ _ _ _ _ Hk1 S2 C2) as Hk2.
     split; [eapply step_trans; eauto|]. split; auto. split; auto.
